@@ -2494,6 +2494,13 @@ def _fuse_source(it: Term):
         # table filled once per element are taken to be distinct, as for the table itself)
         d = it[1][1]
         k_, v_ = d[2][1]
+        # only if the keys are distinct by construction - the source's own key (k of `for k, v in A.items()`) or its element (of a set / range /
+        # the keys of a mapping); a table keyed by something computed from the element may merge entries and is not the list of its items
+        src_ = d[3][0][1]
+        own_keys = [T.mk_index(("elem", src_, u), T.ZERO) for u in {x[2] for x in T.walk(k_) if x[0] == "elem" and x[1] == src_}] if T.call_name(src_).endswith(".items") else []
+        own_elems = [x for x in T.walk(k_) if x[0] == "elem" and x[1] == src_] if (src_[0] == "call" and src_[1] in ("range", "set")) else []
+        if not (k_ in own_keys or k_ in own_elems):
+            return None
         tmpl = {"items": ("tuple", (k_, v_)), "values": v_, "keys": k_}[it[1][2]]
         it = ("comp", "list", tmpl, d[3], d[4])
     if not (it[0] == "comp" and it[1] in ("list", "gen") and len(it[3]) == 1):
